@@ -31,7 +31,7 @@ class Via:
 class Contract:
     def __init__(self, file, qual, *, props, params=None, free=None, via=None, requires=(), post=None, loops=None,
                  cover=(), native=None, name=None, clause_props=None, generator=False, notes=(), stubs=None,
-                 callee_contracts=None, bounded_ok=False, ghosts=None, replayer=None, consts=None, methods=None, scenarios=None, opaque=None, decl_disciplines=None, then=None, prefer_shadow=False, frame=True, max_paths=None, trusted=False, max_depth=None, then_requires=(), env=None, index_safety=False):
+                 callee_contracts=None, bounded_ok=False, ghosts=None, replayer=None, consts=None, methods=None, scenarios=None, opaque=None, decl_disciplines=None, then=None, prefer_shadow=False, frame=True, max_paths=None, trusted=False, max_depth=None, then_requires=(), env=None, index_safety=False, resolve_method=None):
         self.file = file
         self.qual = qual
         self.name = name or f"{file}:{qual}"
@@ -61,6 +61,7 @@ class Contract:
         self.prefer_shadow = prefer_shadow
         self.then = dict(then or {})         # call the returned closure with these further parameters
         self.then_requires = list(then_requires)   # preconditions over the parameters of the second stage
+        self.resolve_method = resolve_method   # (getter(module) -> class, method name): the unit is the method the class resolves to
         self.index_safety = index_safety     # integer subscripts of symbolic tuples may be out of range (IndexError path)
         self.env = dict(env or {})           # process environment of the unit's run (e.g. TZ: the property quantifies over it)
         self.decl_disciplines = dict(decl_disciplines or {})
